@@ -177,7 +177,6 @@ def dec_shapes(tier):
         return [(a, m) for a in (0, 1, 5, 8) for m in range(10)] + [(3, 17), (0, 33)]
     t = set((a, m) for a in range(0, 18, 1) for m in range(18) if a % 2 == 0 or m % 4 == 1)
     t |= set((a, m) for a in (0, 33) for m in (31, 32, 33, 63, 64, 65, 127, 129, 255, 258))
-    t |= set([(0, 1027), (3, 1031)])
     return sorted(t)
 
 
